@@ -42,3 +42,4 @@ CFG = {'level': 'exploration',
                  'math/big and regexp are correct',
                  'ref/refsemver transcribes the documented version grammar and SemVer precedence correctly']}
 CFG['level_text'] += ' Build metadata of bases is generated from the grammar (identifiers over [0-9A-Za-z-], dots), not only from a list.'
+CFG['level_text'] += ' Every batch runs under another process-local time zone (UTC, +05:30, -09:00, +14:00, an odd offset).'
